@@ -48,11 +48,11 @@ ROOT = os.path.dirname(os.path.dirname(os.path.abspath(__file__)))
 NCPU = min(16, os.cpu_count() or 1)
 MODULE, CFG = "MxExportTrace", "MxExportTrace.cfg"
 
-SIZES = {"quick": {"programs": 150}, "thorough": {"programs": 2100}}
+SIZES = {"quick": {"programs": 150}, "thorough": {"programs": 1800}}
 CLASSES = ["static", "derived", "instance", "instance_child", "nested"]
 
 ASSUMPTIONS = [
-    "export subset generated: def / lambda formulas rendered through the 12 templates of "
+    "export subset generated: def / lambda formulas rendered through the %d templates of "
     "harness/export_templates.py (comprehensions, generator expressions, nested functions, nonlocal, "
     "lambdas with default capture, conditional chains, locals shadowing built-ins and unused globals); "
     "positional, keyword and default spellings of calls; integer references as literals or pickled "
@@ -60,16 +60,15 @@ ASSUMPTIONS = [
     "model-level references; references / cells named like built-ins (max, min, abs, all, pow, hash, "
     "id); ordered bases with derived members; one- and two-parameter ItemSpaces (second parameter "
     "with default) incl. a nested parametrised child and a plain child; formulas that raise "
-    "ValueError, with and without a catch-all handler",
+    "ValueError, with and without a catch-all handler" % len(xt.TEMPLATES),
     "NOT generated because the exported cells are plain methods / the exporter documents or shows no "
     "support: subscription and .value on cells reached by attribute (`T.c[1]`, `T.c.value`), the "
     "deprecated name _self (written _space), references returned by a parameter formula "
     "({'refs': ...}), formulas returning None unless the model allows None (the package has no "
     "None check), inputs assigned to cells, edits after export",
-    "the two spellings hit by known transformer defects (a global name in parentheses; a global name "
-    "inside a list/dict comprehension that follows a nested function or lambda, Python >= 3.12) are "
-    "only produced by the probe variants kf_paren / kf_compscope and are classified by the KF: "
-    "predicates of MxExportTrace.tla",
+    "two templates (paren_global, comp_after_lambda) are the spellings of two transformer defects this "
+    "check found and that were repaired in /repo (0ecda46, 5b8fa93); the KF:C15.* predicates of "
+    "MxExportTrace.tla stay as regression tripwires for exactly those situations",
     "errors are compared by class through the code table of MxSem (ValueError('E<n>'), "
     "NameError/AttributeError, TypeError); the table is duplicated in harness/export_child.py "
     "because that process must not import modelx",
@@ -84,13 +83,15 @@ ASSUMPTIONS = [
 # ---------------------------------------------------------------------------
 def _jobs(tier, seed, only_kind=None):
     n = int(os.environ.get("VERIF_C15_PROGRAMS") or SIZES[tier]["programs"])   # (override: development)
+    # development only: VERIF_C15_EXTRA=sub,pfrefs switches on spellings OUTSIDE the export subset
+    extra = tuple(x for x in os.environ.get("VERIF_C15_EXTRA", "").split(",") if x)
     jobs, programs = [], []
     for i in range(n):
         kind = xd.KINDS[i % 3]
         if only_kind and kind != only_kind:
             continue
         pseed = (seed % 1000003) * 1000 + i
-        defs = xd.make_program(kind, pseed)
+        defs = xd.make_program(kind, pseed, extra)
         programs.append(defs)
         for v in xd.variants_of(defs, pseed, "quick"):
             jobs.append({"defs": defs, "variant": v})
